@@ -149,8 +149,10 @@ def run_tlc(module, cfg=None, workers=1, timeout=600, env=None, simulate=None, d
     if not ok:
         if res.invariant_violated and allow_violation:
             return res
+        out = '\n'.join(l for l in p.stdout.splitlines() if not l.startswith('<<"EMIT"'))
+        k = out.find('Error:')
         raise TLCError(f'TLC failed (rc={p.returncode}) on {os.path.basename(module)} cfg={os.path.basename(cfg)}:\n'
-                       + p.stdout[-6000:])
+                       + (out[k:k + 3500] if k >= 0 else out[-3500:]))
     return res
 
 
